@@ -125,11 +125,11 @@ Definition s_plan_mask (a : args) : list (list Z) :=
    0: file parameters  [nullmod; ...harness-only layout parameters]
    1: row count of each row group            2: chosen row groups, in order
    3: selection: empty = none, else kind :: aux :: data   4: predicates, 4 integers each (kind, p1, p2, harness-only)
-   5: offset (optional)   6: limit (optional)   7: batch size   8: projection, one flag per leaf (id, val, s, lst, ll)
+   5: offset (optional)   6: limit (optional)   7: batch size   8: projection, one flag per leaf (id, val, s, lst, ll, dec)
    9: harness-only reader parameters (policy, page index, ...)
-   -> [rows returned] [batches larger than the batch size] [id] [val] [s] [lst] [ll]
+   -> [rows returned] [batches larger than the batch size] [id] [val] [s] [lst] [ll] [dec]
       val: NULL = -1000000;  s: NULL = -1;  lst, per row: -1 for a NULL list, else length then elements (NULL = -1000000);
-      ll, per row: -1 for a NULL list, else length then each inner list encoded like lst *)
+      ll, per row: -1 for a NULL list, else length then each inner list encoded like lst;  dec: unscaled value, NULL = -1000000 *)
 Fixpoint preds_of (l : list Z) : list pred :=
   match l with
   | k :: p1 :: p2 :: _ :: r => {| p_kind := k; p_1 := p1; p_2 := p2 |} :: preds_of r
@@ -153,7 +153,8 @@ Definition out_read (nullmod : Z) (proj : list Z) (ids : list Z) : list (list Z)
     (if on 1%nat then map (fun i => match val_of nullmod i with Some v => v | None => (-1000000)%Z end) ids else []);
     (if on 2%nat then map (fun i => match str_of i with Some v => v | None => (-1)%Z end) ids else []);
     (if on 3%nat then flat_map (fun i => enc_lst (lst_of i)) ids else []);
-    (if on 4%nat then flat_map (fun i => enc_ll (ll_of i)) ids else []) ].
+    (if on 4%nat then flat_map (fun i => enc_ll (ll_of i)) ids else []);
+    (if on 5%nat then map (fun i => match dec_of i with Some v => v | None => (-1000000)%Z end) ids else []) ].
 Definition s_read (a : args) : list (list Z) :=
   let nullmod := argz 0 a in
   let selection := match arg 3 a with [] => None | g => Some (raw_bits g) end in
